@@ -9,6 +9,7 @@ from pyvc.unit import unit
 
 SES = "androguard/session.py"
 META = {
+    "technique": 'contract with interference step decided by exhaustive schedule enumeration replayed on the real constructor and sqlite',
     "level": "other",
     "partial": True,
     "level_text": "Sequential contract + interference step, decided by exhaustive schedule enumeration on the real code: "
